@@ -333,6 +333,16 @@ func subC14Dkg(arg string) string {
 		if fault == "slow-network" || a["jitter"] == "1" {
 			d.Delay = time.Duration(rng.Intn(60)) * time.Millisecond
 		}
+		if fault == "buffered-then-retransmitted" && string(to) == string(ids[0]) && attempt == 1 {
+			// everything reaches member 0 before it starts its session; every acknowledgement is lost,
+			// so every sender transmits again half a second later, when the batches have been handed over
+			d.FailAfter = true
+			return d
+		}
+		if fault == "buffered-then-retransmitted" && isKind(m, ".Responses") {
+			d.Delay = 800 * time.Millisecond // the sessions are still running when the retransmissions arrive
+			return d
+		}
 		if crashAfter >= 0 && string(from) == string(ids[n-1]) {
 			mu.Lock()
 			sentBy[string(from)]++
@@ -371,6 +381,9 @@ func subC14Dkg(arg string) string {
 		wg.Add(1)
 		go func(i int) {
 			defer wg.Done()
+			if fault == "buffered-then-retransmitted" && i == 0 {
+				time.Sleep(250 * time.Millisecond)
+			}
 			nodes[i].VerifHandleGrouping(ids, gid)
 		}(i)
 	}
@@ -535,17 +548,23 @@ func genC14(rng *hx.Rng, tier string, w *hx.Writer) error {
 	}
 	// key generation
 	dDeadlines := []int{0, 3, 10, 25, 50, 90, 150, 250, 400, 700, 1500}
-	dFaults := []string{"none", "peer-silent", "invalid-deal", "register-failure", "slow-network", "many-invalid-deals"}
+	dFaults := []string{"none", "peer-silent", "invalid-deal", "register-failure", "slow-network", "many-invalid-deals", "buffered-then-retransmitted"}
 	for rep := 0; rep < reps; rep++ {
 		for _, f := range dFaults {
 			for _, dl := range dDeadlines {
 				if tier == "quick" && f != "none" && dl != 25 && dl != 250 && dl != 1500 {
 					continue
 				}
+				if f == "buffered-then-retransmitted" && dl < 1500 {
+					continue // the retransmissions come 500 ms after the first attempt
+				}
 				seed++
 				n := 3 + seed%2
 				if f == "many-invalid-deals" {
 					n = 3
+				}
+				if f == "buffered-then-retransmitted" {
+					dl = 2500
 				}
 				add("key-generation", "c14-dkg", fmt.Sprintf("n=%d,deadline=%d,fault=%s,jitter=%d,seed=%d", n, dl+rng.Intn(4), f, seed%2, seed), 40*time.Second, "f:"+f, fmt.Sprintf("deadline:%d", dl))
 			}
